@@ -591,6 +591,87 @@ def run_shared_decorator(res, c):
         res["nontrivial"].append(hash(("sd", order)) & 0xFFFFFFFFFFFF)
 
 
+def run_unnamed_parameters(res, c):
+    """Deduplicated functions WITHOUT named parameters (def f(*ids) / def f(**opts)): the arguments still are the key."""
+    import asynq
+    from asynq import asynq as A
+    from asynq.tools import DeduplicateDecorator, deduplicate
+    from .. import harness
+
+    for variant in range(6):
+        asynq.scheduler.reset()
+        DeduplicateDecorator.tasks.clear()
+        rt = harness.HarnessRT({"nodes": [], "kinds": 1})
+        runs = []
+        ctr = itertools.count()
+
+        @deduplicate()
+        @A()
+        def star(*ids):
+            runs.append(("star", ids))
+            yield harness.HItem(rt, 0, "un%d" % next(ctr), ("un", next(ctr)))
+            return ("star", ids)
+
+        @deduplicate()
+        @A()
+        def kw(**opts):
+            runs.append(("kw", tuple(sorted(opts.items()))))
+            yield harness.HItem(rt, 0, "un%d" % next(ctr), ("un", next(ctr)))
+            return ("kw", tuple(sorted(opts.items())))
+
+        calls = [
+            (star, (1, 2), {}), (star, (1, 2), {}), (star, (2, 1), {}), (star, (), {}), (star, (1,), {}), (star, (1, 2, 3), {}),
+            (kw, (), {"x": 1}), (kw, (), {"x": 1}), (kw, (), {"x": 2}), (kw, (), {"y": 1}), (kw, (), {}), (kw, (), {"x": 1, "y": 2}), (kw, (), {"y": 2, "x": 1}),
+        ]
+        random.Random(variant).shuffle(calls)
+        late = variant % 2 == 1
+        dirty_one = variant >= 4
+
+        @A()
+        def asker(fn, a, k):
+            if late:
+                yield harness.HItem(rt, 0, "un%d" % next(ctr), ("un", next(ctr)))
+            t = fn.asynq(*a, **k)
+            return t, (yield t)
+
+        @A()
+        def gather():
+            first = [asker.asynq(fn, a, k) for fn, a, k in calls[: len(calls) // 2]]
+            rest = calls[len(calls) // 2 :]
+            if dirty_one:
+                # forgetting ONE key must not touch the calls in flight under other keys
+                star.dirty(99)
+                kw.dirty(zz=1)
+            return (yield first + [asker.asynq(fn, a, k) for fn, a, k in rest])
+
+        rt.attach()
+        try:
+            try:
+                got = gather()
+            except BaseException as e:
+                res["violations"].append({"oracle": "functions-without-named-parameters", "mechanism": "functions-without-named-parameters/crashed", "detail": {"variant": variant, "exc": repr(e)[:200]}, "case": {"mode": "shared_deco", "cases": [0, 1]}})
+                continue
+        finally:
+            rt.detach()
+            DeduplicateDecorator.tasks.clear()
+        res["evaluations"] += 1
+        c["calls_of_deduplicated_functions_without_named_parameters"] = c.get("calls_of_deduplicated_functions_without_named_parameters", 0) + len(calls)
+        probs = []
+        keyof = lambda fn, a, k: (fn is star, a, tuple(sorted(k.items())))
+        for i, ((fn, a, k), (t, v)) in enumerate(zip(calls, got)):
+            want = ("star", a) if fn is star else ("kw", tuple(sorted(k.items())))
+            if v != want:
+                probs.append("call %r received %r" % (want, v))
+            for (fn2, a2, k2), (t2, _v2) in list(zip(calls, got))[:i]:
+                if (t2 is t) != (keyof(fn, a, k) == keyof(fn2, a2, k2)) and not late:
+                    probs.append("calls %r and %r: same task is %s" % (keyof(fn2, a2, k2)[1:], keyof(fn, a, k)[1:], t2 is t))
+        if not late and len(runs) != len(set(keyof(fn, a, k) for fn, a, k in calls)):
+            probs.append("bodies ran %d times for %d different calls" % (len(runs), len(set(keyof(fn, a, k) for fn, a, k in calls))))
+        if probs and len(res["violations"]) < 8:
+            res["violations"].append({"oracle": "functions-without-named-parameters", "mechanism": "functions-without-named-parameters", "detail": {"variant": variant, "asked_one_step_later": late, "problems": probs[:4]}, "case": {"mode": "shared_deco", "cases": [0, 1]}})
+        res["nontrivial"].append(hash(("un", variant)) & 0xFFFFFFFFFFFF)
+
+
 def plan(tier, seed, build, scale):
     n = int((1600 if tier == "quick" else 120000) * scale)
     per = max(1, n // (8 if tier == "quick" else 64))
@@ -608,6 +689,7 @@ def run_unit(unit, progress):
     if unit.get("mode") == "shared_deco":
         progress(0)
         run_shared_decorator(res, c)
+        run_unnamed_parameters(res, c)
         return res
     if unit.get("mode") == "generations":
         # "thread" is part of the key: a new thread never shares with a finished one, even when the OS re-issues
